@@ -1,14 +1,24 @@
 """C04: interpolation of the hull at the grid (_get_interpolation_indices, _interpolate_curve), point-wise for a generic grid index."""
 from ..contracts.interpolation import InterpolateCurve, InterpolationIndices
 from ..contracts.to_simple import SimpleConstraints
-from ..contracts.to_eo import EqualizedOddsEntries
+from ..contracts.to_eo import EqualizedOddsCurves, EqualizedOddsEntries, tradeoff_curve_defaults
 from ..pyvc import verify
 
 
 def items(rep):
     rep.trust("np.searchsorted(a, v, side='right')[i] = #{j : a[j] <= v[i]} for non-decreasing a (assumed)",
               "integer-array indexing a[idx] and a[idx + 1], slice views a[1:], np.where and slice assignment are element-wise (assumed, ndmodel.py)")
-    return [(InterpolationIndices(), [("searchsorted_left", verify.replace_const("right", "left")),
+    try:
+        d = tradeoff_curve_defaults()
+        ok = d.get("x_metric") == "false_positive_rate" and d.get("y_metric") == "true_positive_rate"
+        rep.add_obligation("_tradeoff_curve.default_metrics_are_false_and_true_positive_rate", "_tradeoff_curve", "discharged" if ok else "failed", "ast", 0.0, "P")
+        if not ok:
+            rep.violation("C04:_tradeoff_curve:default-metrics", f"equalized odds relies on _tradeoff_curve's default metrics being FPR/TPR, found {d}", obligation="_tradeoff_curve.default_metrics", no_input=True)
+    except Exception as ex:
+        rep.add_obligation("_tradeoff_curve.default_metrics_are_false_and_true_positive_rate", "_tradeoff_curve", "undecided", "ast", 0.0, "P", detail=repr(ex)[:200])
+    return [(EqualizedOddsCurves(), [("flip_setting_not_passed_on", verify.replace_expr("_tradeoff_curve(group, sensitive_feature_value, flip=self.flip)", "_tradeoff_curve(group, sensitive_feature_value)")),
+                                     ("curve_of_all_rows_for_every_group", verify.replace_expr("_tradeoff_curve(group, sensitive_feature_value, flip=self.flip)", "_tradeoff_curve(scores, sensitive_feature_value, flip=self.flip)"))]),
+            (InterpolationIndices(), [("searchsorted_left", verify.replace_const("right", "left")),
                                       ("no_decrement_on_equality", verify.replace_expr("indices[1:] - 1", "indices[1:]"))]),
             (InterpolateCurve(), [("p0_p1_swapped", verify.replace_expr("x_values[interpolation_indices + 1] - x_grid", "x_grid - x_values[interpolation_indices]")),
                                   ("right_vertex_operation_taken_from_left", verify.replace_expr("content_values[interpolation_indices + 1]", "content_values[interpolation_indices]"))]),
